@@ -31,10 +31,10 @@ theorem homogeneous_sound_opfree (S : DRing K) (d : Nat) (lg : Bool) (args : Lis
   have s2 := (reevalSound_opfree S d lg args (freshList "l#" args) e hargs (freshList_opfree _ args hargs) he).1
   unfold homogeneous at hh
   simp only [substEval] at hh
-  cases h1 : reeval d (subst (args.zip (mulVals args)) e) with
+  cases h1 : reeval2 d (subst (args.zip (mulVals args)) e) with
   | error x => simp [mulVals] at h1; simp [h1] at hh
   | ok n =>
-    cases h2 : reeval d (subst (args.zip (freshList "l#" args)) e) with
+    cases h2 : reeval2 d (subst (args.zip (freshList "l#" args)) e) with
     | error x => simp [mulVals] at h1; simp [h1, h2] at hh
     | ok l =>
       have h1' := h1
